@@ -59,8 +59,9 @@ LinesText(ls, i, indent, finalNl) ==
 EB_(k, v, style) == [k |-> k, v |-> v, style |-> style, aid |-> 0, tag |-> <<>>]
 PB_(v) == EB_("Scalar", v, "plain")
 BCtx(name) ==
-  IF name = "top" THEN [pre |-> <<>>, n |-> -1, follow |-> <<>>]
-  ELSE IF name = "topdoc" THEN [pre |-> <<"-", "-", "-", " ">>, n |-> -1, follow |-> <<>>]
+  \* (a top-level scalar is followed by the next document: "--- z", or "..." and a bare document)
+  IF name = "top" THEN [pre |-> <<>>, n |-> -1, follow |-> <<"-", "-", "-", " ", "z", "\n">>]
+  ELSE IF name = "topdoc" THEN [pre |-> <<"-", "-", "-", " ">>, n |-> -1, follow |-> <<".", ".", ".", "\n", "z", "\n">>]
   ELSE IF name = "mapvalue" THEN [pre |-> <<"k", ":", " ">>, n |-> 0, follow |-> <<"z", ":", " ", "w", "\n">>]
   ELSE IF name = "seqentry" THEN [pre |-> <<"-", " ">>, n |-> 0, follow |-> <<"-", " ", "z", "\n">>]
   ELSE IF name = "nested" THEN [pre |-> <<"k", ":", "\n", " ", " ", "j", ":", " ">>, n |-> 2, follow |-> <<"z", ":", " ", "w", "\n">>]
@@ -72,8 +73,8 @@ WrapB(name, ev, followed) ==
   LET SS == EB_("StreamStart", <<>>, "") SE == EB_("StreamEnd", <<>>, "") DS == EB_("DocumentStart", <<>>, "implicit") DX == EB_("DocumentStart", <<>>, "explicit")
       DE == EB_("DocumentEnd", <<>>, "") MS == EB_("MappingStart", <<>>, "") ME == EB_("MappingEnd", <<>>, "") QS == EB_("SequenceStart", <<>>, "") QE == EB_("SequenceEnd", <<>>, "")
       K == PB_(<<"k">>) J == PB_(<<"j">>) Z == PB_(<<"z">>) W == PB_(<<"w">>)
-  IN IF name = "top" THEN <<SS, DS, ev, DE, SE>>
-     ELSE IF name = "topdoc" THEN <<SS, DX, ev, DE, SE>>
+  IN IF name = "top" THEN <<SS, DS, ev, DE>> \o (IF followed THEN <<DX, Z, DE>> ELSE <<>>) \o <<SE>>
+     ELSE IF name = "topdoc" THEN <<SS, DX, ev, DE>> \o (IF followed THEN <<DS, Z, DE>> ELSE <<>>) \o <<SE>>
      ELSE IF name = "mapvalue" THEN <<SS, DS, MS, K, ev>> \o (IF followed THEN <<Z, W>> ELSE <<>>) \o <<ME, DE, SE>>
      ELSE IF name = "seqentry" THEN <<SS, DS, QS, ev>> \o (IF followed THEN <<Z>> ELSE <<>>) \o <<QE, DE, SE>>
      ELSE IF name = "nested" THEN <<SS, DS, MS, K, MS, J, ev, ME>> \o (IF followed THEN <<Z, W>> ELSE <<>>) \o <<ME, DE, SE>>
